@@ -20,7 +20,7 @@ for d in sorted(os.listdir(ROOT)):
     if not d.endswith("-incoming"):
         continue
     pid = d.split("-")[0]
-    for v in ("a", "b", "c", "d", "e", "f", "g", "h", "i", "j"):
+    for v in ("a", "b", "c", "d", "e", "f", "g", "h", "i", "j", "k", "l"):
         src = os.path.join(ROOT, d)
         if not os.path.exists(os.path.join(src, v + ".patch.diff")):
             continue
@@ -42,7 +42,7 @@ for d in sorted(os.listdir(ROOT)):
             "files_changed": meta.get("files_changed"),
             "demo": {"file": "demo_test.go", "package_dir": meta.get("package_dir_of_demo"),
                      "how": "copy into <package_dir>/zz_seed_test.go of a worktree of /repo and run `go1.26.8 test -vet=off -count=1 -run Seed ./<package_dir>/`"},
-            "produced_by": "independent sub-agent given only the property text and a scratch worktree" + (" (round 2: asked for subtler changes - cooperating edits, interleavings, secondary code paths)" if v in "cd" else " (round 3: additionally non-default configuration, runtime reconfiguration, roles, SECS-I, alternative modes, boundary values)" if v in "ef" else " (round 4: additionally interplay of features, what is reported on failure paths, state carried over between uses, n-th occurrence)" if v in "gh" else " (round 5: additionally the paths furthest from the happy path - error returns, option combinations, the second transport, metrics and notification plumbing, re-armed timers, pooled or reused resources)" if v in "ij" else ""),
+            "produced_by": "independent sub-agent given only the property text and a scratch worktree" + (" (round 2: asked for subtler changes - cooperating edits, interleavings, secondary code paths)" if v in "cd" else " (round 3: additionally non-default configuration, runtime reconfiguration, roles, SECS-I, alternative modes, boundary values)" if v in "ef" else " (round 4: additionally interplay of features, what is reported on failure paths, state carried over between uses, n-th occurrence)" if v in "gh" else " (round 5: additionally the paths furthest from the happy path - error returns, option combinations, the second transport, metrics and notification plumbing, re-armed timers, pooled or reused resources)" if v in "ij" else " (round 6, five properties: same brief as round 5)" if v in "kl" else ""),
             "rebased": os.path.exists(os.path.join(src, v + ".patch.original.diff")),
             "confirmed_by_me": {
                 "how": "tools/seeded_verify.sh %s %s [suite]: scratch git worktree of /repo HEAD; demo on the unchanged tree; git apply patch; go build ./...; demo with the patch; full suite with the patch; ./check %s quick with VERIF_REPO=<worktree>" % (pid, v, pid),
